@@ -133,7 +133,19 @@ def offsets(T):
 
 def has_value(T):
     """types for which tyir can build a value (address arithmetic, any)"""
-    return hasattr(T, "val")
+    if isinstance(T, (Ptr, Slice, Distinct, Named)):
+        return False
+    if isinstance(T, Arr):
+        return T.n > 0 and has_value(T.sub)
+    if isinstance(T, Struct):
+        return all(has_value(t) for _, t in T.fields)
+    if isinstance(T, Enum):
+        return all(t is None or has_value(t) for _, t, _ in T.variants)
+    if isinstance(T, Opt):
+        return has_value(T.sub)
+    if isinstance(T, ErrU):
+        return has_value(T.sub) and has_value(T.err)
+    return True
 
 
 def universe():
@@ -257,7 +269,11 @@ def equality_cases(tys):
         if t.spell() not in seen:
             seen.add(t.spell())
             sel.append(t)
-    sel = [t for t in sel if not (isinstance(t, Struct) and t.name.startswith("B"))][:44]
+    sel = [t for t in sel if not (isinstance(t, Struct) and t.name.startswith("B"))]
+    # scalars, every primitive name, pointers / slices / distincts, and a selection of the aggregates
+    prim = [t for t in sel if isinstance(t, (tyir.Int, tyir.Bool, tyir.Float, Named, Ptr, Slice, Distinct))]
+    rest = [t for t in sel if t not in prim]
+    sel = prim + rest[::3]
     cases = []
     for i, A in enumerate(sel):
         body = []
